@@ -106,7 +106,9 @@ def run(ctx: Ctx):
     # constructors copy their input
     fi = ctx.func(MOD, "FenwickTree.__init__")
     t = ast.unparse(fi.node)
-    ctx.ob("C20-O1", "R17 PARAM-IMMUTABLE", fi, "FenwickTree copies its initial values (no aliasing of the caller's list)", "self._tree = list(values)" in t and "self._tree = [0.0] * values" in t, "", node=fi.node)
+    tree_defs = [n.value for n in own_nodes(fi.node) if isinstance(n, ast.Assign) and any(ast.unparse(x) == "self._tree" for x in n.targets)]
+    fresh = [d for d in tree_defs if (isinstance(d, ast.Call) and ast.unparse(d.func) == "list") or isinstance(d, ast.ListComp) or (isinstance(d, ast.BinOp) and isinstance(d.op, ast.Mult) and isinstance(d.left, ast.List))]
+    ctx.ob("C20-O1", "R17 PARAM-IMMUTABLE", fi, "FenwickTree copies its initial values (no aliasing of the caller's list)", len(tree_defs) >= 1 and len(fresh) == len(tree_defs), f"{[ast.unparse(d)[:40] for d in tree_defs]}", node=fi.node)
     ui = ctx.func(MOD, "UnionFind.__init__")
     tu = ast.unparse(ui.node)
     ctx.ob("C20-O1", "R27 WRITE-OWNERSHIP", ui, "UnionFind starts as n singletons: parent[i] = i, rank 0, count n", "self._parent = list(range(n))" in tu and "self._rank = [0] * n" in tu and "self._count = n" in tu, "", node=ui.node)
@@ -168,6 +170,9 @@ def run(ctx: Ctx):
     up = ctx.func(MOD, "FenwickTree.update")
     pf = ctx.func(MOD, "FenwickTree.prefix")
     rs = ctx.func(MOD, "FenwickTree.range_sum")
+    # a constructor that builds the partial sums by some other scheme (no `i | (i + 1)` propagation, e.g. level by
+    # level) is outside what this rule can decide: fail closed rather than call a possibly correct build a violation
+    ctx.require(any(isinstance(n, ast.BinOp) and isinstance(n.op, ast.BitOr) for n in own_nodes(fi.node)), "FenwickTree.__init__ no longer propagates cells through the parent step `i | (i + 1)`: the build scheme is not one this check can decide")
     step_ctor = [n.value for n in own_nodes(fi.node) if isinstance(n, ast.Assign) and ast.unparse(n.targets[0]) == "j"]
     step_upd = [n for n in own_nodes(up.node) if isinstance(n, ast.AugAssign) and ast.unparse(n.target) == "i"]
     want = canon(ast.parse("i | (i + 1)", mode="eval").body)
